@@ -480,6 +480,24 @@ static void run_c14s(void)
             }
         }
     }
+    /* valid calls must return 1: every documented key length through the parallel key-setting functions, on a fresh
+     * and on an already keyed object */
+    for (c = 0; c < 2; ++c) for (be = 0; be <= cipher_max_be((Cipher)c); ++be) {
+        int bs = cipher_bs((Cipher)c), len, twice;
+        for (len = bs; len <= 3 * bs; ++len) for (twice = 0; twice < 2; ++twice) {
+            ParObj o; const char *pfn = c == 0 ? "skinny128_parallel_ecb_set_key" : "skinny64_parallel_ecb_set_key";
+            snprintf(cd, sizeof(cd), "c14s parvalid %d %d %d %d", c, be, len, twice);
+            if (guard_enter("C14/parallel", cd)) continue;
+            ++g_cnt.evaluations;
+            arena_reset(); memset(&o, 0, sizeof(o));
+            par_init((Cipher)c, be, &o);
+            if (twice) par_set_key((Cipher)c, &o, key + 5, (unsigned)(2 * bs), 5, MANTIS_ENCRYPT);
+            r = par_set_key((Cipher)c, &o, key, (unsigned)len, 5, MANTIS_ENCRYPT);
+            if (r != 1) c14_report(pfn, "valid-call-rejected", cd, "a documented key length of %d bytes returned %d on a %s object (%s)", len, r, twice ? "keyed" : "fresh", be_name(be));
+            par_cleanup((Cipher)c, &o);
+            guard_leave();
+        }
+    }
     /* documented null meanings that must succeed: null tweak (Skinny, Mantis) == zero tweak */
     {
         Skinny128TweakedKey_t t1, t2; Skinny64TweakedKey_t u1, u2; MantisKey_t m1, m2; static const uint8_t z[16] = {0};
